@@ -168,6 +168,8 @@ def generate(rng, tier):
         cases.append(hedgehog_case(rng))
     for k in range(8 if q else 40):
         cases.append(demag_case(rng, k))
+    for k in range(6 if q else 30):
+        cases.append(demagseq_case(rng, k))
     for k in range(36 if q else 150):
         cases.append(refuse_case(rng, k))
     rng.shuffle(cases)      # balances the cost of the Coq shards
@@ -336,6 +338,28 @@ def demag_case(rng, k):
                 slow=(math.prod(sh) <= 12))
 
 
+def demagseq_case(rng, k):
+    """one session, one n, a SEQUENCE of cell aspect ratios (incl. the cells that make the cuboid a cube,
+    a pure rescaling, and repeats), in a random order and then in the reverse order"""
+    shapes = [[4, 4, 4], [2, 2, 2], [1, 4, 2], [3, 2, 2], [2, 3, 1], [3, 3, 3], [2, 1, 4]]
+    sh = shapes[k % len(shapes)] if k < len(shapes) else [rng.randint(1, 4) for _ in range(3)]
+    L = math.lcm(*sh)
+    cube = [F(L, n) for n in sh]                       # n_i * cell_i equal: the cuboid is a cube
+    pool = [[1, 2, 4], [F(1, 2), 1, 3], [3, 1, 2], [2, 3, F(1, 2)], [1, 1, 4], [4, 2, 1]]
+    A = pool[rng.randrange(len(pool))]
+    B = pool[(pool.index(A) + 1 + rng.randrange(len(pool) - 1)) % len(pool)]
+    if all(F(a) * n == F(A[0]) * sh[0] for a, n in zip(A, sh)):
+        A = [A[0], A[1], F(A[2]) * 3]
+    sfac = rng.choice([F(1, 10**9), F(3), F(5, 2)])
+    base = [A, cube, B, [F(x) * sfac for x in A], [F(x) * sfac for x in cube]]
+    rng.shuffle(base)
+    if base[0] == cube or base[0] == [F(x) * sfac for x in cube]:
+        base = base[1:] + base[:1]                     # a non-cubic predecessor comes first
+    seq = base + list(reversed(base))
+    return dict(kind="demagseq", sh=sh, seq=[[g.qs(x) for x in cell] for cell in seq],
+                M=g.qs(rng.choice([1.0, 2.5, 8e5])), slow=(math.prod(sh) <= 8))
+
+
 def refuse_case(rng, k):
     what = ["tcd-nvdim", "tcd-ndim", "tcd-method", "charge-nvdim", "charge-ndim", "angle-nvdim", "angle-direction",
             "angle-units", "emergent-nvdim", "emergent-ndim", "bps-nvdim", "bps-ndim", "bps-direction"][k % 13]
@@ -410,8 +434,44 @@ def per_flags(c, names):
 
 
 # ------------------------------------------------------------------ runners
+def decoy_calls(c):
+    """state left by an earlier call: before the observed call, the same tool functions are called on a
+    DIFFERENT input of equal shape (other values, other cell aspect ratio, all cells valid)"""
+    kind = c["kind"]
+    try:
+        if kind == "demagN":
+            sh = c["sh"]
+            cell = [fl(x) * m for x, m in zip(reversed(c["cell"]), (1.0, 2.0, 3.0))]
+            dft.demag_tensor(df.Mesh(p1=(0, 0, 0), p2=[k * h for k, h in zip(sh, cell)], n=sh))
+            return
+        if kind not in ("tcd", "charge", "angle", "emergent", "bps"):
+            return
+        nv = 3
+        vecs = [c["vals"][i:i + nv] for i in range(0, len(c["vals"]), nv)]
+        vals = []
+        for k, v in enumerate(reversed(vecs)):
+            w = [fl(v[1]) + 0.25, -fl(v[2]) + 0.5 * (k % 3), fl(v[0]) - 0.125 * k]
+            vals += [g.qs(x) for x in w]
+        cell = [g.qs(F(x) * F(3 + k, 2)) for k, x in enumerate(reversed(c["cell"]))]
+        d = build(dict(c, vals=vals, cell=cell, valid=None))
+        dims = d.mesh.region.dims
+        if kind in ("tcd", "charge"):
+            for m in ("continuous", "berg-luescher"):
+                dft.topological_charge_density(d, method=m)
+                dft.topological_charge(d, method=m, absolute=True)
+        elif kind == "angle":
+            for u in ("rad", "deg"):
+                dft.neighbouring_cell_angle(d, direction=dims[c["ax"]], units=u)
+        else:
+            dft.emergent_magnetic_field(d)
+            dft.count_bps(d, direction="xyz"[c["dir"]])
+    except Exception:   # noqa: BLE001 - the decoy only leaves state behind
+        pass
+
+
 def run_case(c):
     rec = dict(kind=c["kind"], case=c, oracle=[], tags=[], coq="", obs={}, size=len(c.get("vals", [])) or 1)
+    decoy_calls(c)
     fn = globals()["run_" + c["kind"]]
     fn(c, rec)
     rec["oracle"] = sorted(set(rec["oracle"]))
@@ -644,6 +704,92 @@ def newell_g(x, y, z):
     return r
 
 
+_INDEP = {}
+
+
+def indep_tensor(sh, cell):
+    """real-space demag tensor on the (2n-1) grid, evaluated here (27-point form of the 64-term sum,
+    theorem C19_N_sum_is_triple_second_difference) with the Newell-type functions above; float64"""
+    key = (tuple(sh), tuple(cell))
+    if key in _INDEP:
+        return _INDEP[key]
+    w1 = {-1: 1.0, 0: -2.0, 1: 1.0}
+    out = np.zeros([2 * k - 1 for k in sh] + [6])
+
+    def nel(fun, a, b, c_, da, db, dc):
+        v = 0.0
+        for s0, s1, s2 in itertools.product((-1, 0, 1), repeat=3):
+            v += w1[s0] * w1[s1] * w1[s2] * fun(a + s0 * da, b + s1 * db, c_ + s2 * dc)
+        return v / (PI4 * da * db * dc)
+    dx, dy, dz = cell
+    for idx in itertools.product(*[range(2 * k - 1) for k in sh]):
+        x, y, z = [(i - (k - 1)) * h for i, k, h in zip(idx, sh, cell)]
+        out[idx] = (nel(newell_f, x, y, z, dx, dy, dz), nel(newell_f, y, z, x, dy, dz, dx),
+                    nel(newell_f, z, x, y, dz, dx, dy), nel(newell_g, x, y, z, dx, dy, dz),
+                    nel(newell_g, x, z, y, dx, dz, dy), nel(newell_g, y, z, x, dy, dz, dx))
+    _INDEP[key] = out
+    return out
+
+
+def run_demagseq(c, rec):
+    sh = c["sh"]
+    Mv = fl(c["M"])
+    slow = getattr(getattr(dft, "tools", None), "_demag_tensor_field_based", None)
+    obs = []
+    first_real = {}
+    for step, cq in enumerate(c["seq"]):
+        cell = [fl(x) for x in cq]
+        mesh = df.Mesh(p1=(0, 0, 0), p2=[k * h for k, h in zip(sh, cell)], n=sh)
+        st, T = attempt(lambda: dft.demag_tensor(mesh))
+        if st != "ok":
+            rec["oracle"].append("demag-tensor-raised")
+            break
+        R = T.ifftn().array
+        ref = indep_tensor(sh, cell)
+        dev = float(np.abs(R - ref).max()) if R.shape == ref.shape else float("inf")
+        o_ = dict(step=step, cell=[repr(x) for x in cell], dev_from_independent=dev)
+        if not dev <= 1e-6:
+            rec["oracle"].append("tensor-after-earlier-calls-differs-from-independent-evaluation"
+                                 if step else "tensor-differs-from-independent-evaluation")
+        tr = R[..., 0] + R[..., 1] + R[..., 2]
+        delta = np.zeros(tr.shape)
+        delta[tuple(k - 1 for k in sh)] = -1.0
+        if far(tr, delta, 1e-6):
+            rec["oracle"].append("real-space-trace-not-minus-delta")
+        if c["slow"] and slow is not None and step in (0, 1, 2, len(c["seq"]) - 1):
+            st, T2 = attempt(lambda: slow(mesh))
+            if st != "ok":
+                rec["oracle"].append("field-based-tensor-raised")
+            elif T2.array.shape != T.array.shape or far(T2.array, T.array, 1e-9 * max(1.0, float(np.abs(T.array).max()))):
+                rec["oracle"].append("two-tensor-implementations-disagree")
+        # the same cells seen earlier in this session / a pure rescaling: the same real-space tensor
+        kshape = tuple(F(x) / F(cq[0]) for x in cq)
+        if kshape in first_real and far(R, first_real[kshape], 1e-9):
+            rec["oracle"].append("tensor-of-the-same-aspect-ratio-changed-within-the-session")
+        first_real.setdefault(kshape, R)
+        means = []
+        for i in range(3):
+            v = [0.0, 0.0, 0.0]
+            v[i] = Mv
+            st, H = attempt(lambda: dft.demag_field(df.Field(mesh, nvdim=3, value=v), T))
+            if st != "ok":
+                rec["oracle"].append("demag-field-raised")
+                break
+            means.append(float(H.mean()[i]) / Mv)
+        if len(means) == 3:
+            o_["means_over_M"] = means
+            if far(sum(means), -1.0, 1e-6):
+                rec["oracle"].append("demag-factors-do-not-sum-to-minus-M")
+            ext = [k * h for k, h in zip(sh, cell)]
+            if max(ext) - min(ext) <= 1e-12 * max(ext) and far(means, [-1 / 3] * 3, 1e-6):
+                rec["oracle"].append("cube-demag-factor-not-one-third" + ("-after-other-aspect-ratio" if step else ""))
+            for i, j in itertools.permutations(range(3), 2):
+                if ext[i] > ext[j] * (1 + 1e-9) and not abs(means[i]) < abs(means[j]) * (1 + 1e-9):
+                    rec["oracle"].append("longer-axis-has-larger-demag-factor")
+        obs.append(o_)
+    rec.update(obs=dict(steps=obs), key=f'demagseq/{tuple(sh)}/{c["seq"][0]}', nontrivial=True, size=len(c["seq"]))
+
+
 def run_demagN(c, rec):
     sh = c["sh"]
     cell = [F(x) for x in c["cell"]]
@@ -790,6 +936,14 @@ def run_meta(c, rec):
         st, qa = attempt(lambda: dft.topological_charge(f, method=m, absolute=True))
         if st == "ok" and base[m][1] is not None and qa + 1e-12 * (abs(qa) + 1) < abs(base[m][1]):
             rec["oracle"].append(f"absolute-charge-smaller-than-signed-{m}")
+    # state left by the calls above: the base field evaluated again gives the same answer
+    again = both_charges(f)
+    for m in again:
+        if base[m][0] is None or again[m][0] is None:
+            continue
+        if not (np.array_equal(again[m][0], base[m][0], equal_nan=True)
+                and (again[m][1] == base[m][1] or (again[m][1] != again[m][1] and base[m][1] != base[m][1]))):
+            rec["oracle"].append(f"result-depends-on-earlier-calls-{m}")
     # sub-threshold rescaling (|v| < 1e-8 is a zero vector for Field.orientation, C15): recorded, not judged
     rec.update(obs=dict(charges=obs, skipped=skipped, risky=risky),
                key=f'meta/{tuple(sh)}/{c["tex"]}/{all(c["valid"])}/{c.get("bc", "")}', nontrivial=True)
